@@ -472,3 +472,489 @@ Proof.
     intros Eq. apply Hn. apply HLein. exists q. split; [exact Hq | symmetry; exact Eq].
   - split; [exact HPM2|]. intros e He. apply HPM. apply HE2in in He. tauto.
 Qed.
+
+(* ---------------------------------------------------------------- prefetch (the recursion) *)
+
+Record PreSpec (s : nat -> nat) (E Q : list nat) (r : prefetched) : Prop := mkPreSpec {
+  ps_E : Permutation E (p_ef r ++ p_ei r ++ p_el r);
+  ps_Q : Permutation Q (p_qf r ++ p_qi r ++ p_ql r);
+  ps_qf : p_qf r = map s (p_ef r);
+  ps_ql : p_ql r = map s (p_el r);
+  ps_tf : TriS s (p_ef r);
+  ps_tl : TriS s (p_el r);
+  ps_zf : zero (p_ef r) (p_qi r ++ p_ql r);
+  ps_zi : zero (p_ei r) (p_ql r);
+  ps_pm : PMf s (p_ei r) (p_qi r);
+  ps_ndE : NoDup (p_ei r);
+  ps_ndQ : NoDup (p_qi r)
+}.
+
+Lemma PreSpec_stop : forall s E Q, NoDup E -> NoDup Q -> PMf s E Q -> PreSpec s E Q (mkPre [] [] [] [] E Q).
+Proof.
+  intros s E Q HE HQ HPM. constructor; simpl; try rewrite app_nil_r; auto; try apply Permutation_refl;
+    try (intros e q []); try (intros e q ? []).
+Qed.
+
+Lemma prefetch_level : forall s E Q F QF E1 Q1 Le Lq E2 Q2 r,
+  NoDup E -> NoDup Q -> PMf s E Q ->
+  prefetch_first inc E Q = (F, QF, E1, Q1) ->
+  prefetch_last inc E1 Q1 = (Le, Lq, E2, Q2) ->
+  PreSpec s E2 Q2 r ->
+  PreSpec s E Q (mkPre (F ++ p_ef r) (QF ++ p_qf r) (p_el r ++ Le) (p_ql r ++ Lq) (p_ei r) (p_qi r)).
+Proof.
+  intros s E Q F QF E1 Q1 Le Lq E2 Q2 r HE HQ HPM H1 H2 Hr.
+  destruct (prefetch_first_spec _ _ _ _ _ _ _ HE HQ HPM H1)
+    as [HQF [HEp [HQp [Hoff [HzF [HPM1 [HE1 HQ1]]]]]]].
+  destruct (prefetch_last_spec _ _ _ _ _ _ _ HE1 HQ1 HPM1 H2)
+    as [HLq [HE1p [HQ1p [Hcol [HzL [HPM2 [HE2 [HQ2 HLe]]]]]]]].
+  destruct Hr as [rE rQ rqf rql rtf rtl rzf rzi rpm rndE rndQ].
+  (* membership facts *)
+  assert (inE2 : forall x, In x (p_ef r) \/ In x (p_ei r) \/ In x (p_el r) -> In x E2).
+  { intros x Hx. eapply Permutation_in; [apply Permutation_sym; exact rE|]. rewrite !in_app_iff. exact Hx. }
+  assert (inQ2 : forall x, In x (p_qf r) \/ In x (p_qi r) \/ In x (p_ql r) -> In x Q2).
+  { intros x Hx. eapply Permutation_in; [apply Permutation_sym; exact rQ|]. rewrite !in_app_iff. exact Hx. }
+  assert (E2E1 : forall x, In x E2 -> In x E1).
+  { intros x Hx. eapply Permutation_in; [apply Permutation_sym; exact HE1p|]. apply in_or_app. left. exact Hx. }
+  assert (LeE1 : forall x, In x Le -> In x E1).
+  { intros x Hx. eapply Permutation_in; [apply Permutation_sym; exact HE1p|]. apply in_or_app. right. exact Hx. }
+  assert (Q2Q1 : forall x, In x Q2 -> In x Q1).
+  { intros x Hx. eapply Permutation_in; [apply Permutation_sym; exact HQ1p|]. apply in_or_app. left. exact Hx. }
+  assert (LqQ1 : forall x, In x Lq -> In x Q1).
+  { intros x Hx. eapply Permutation_in; [apply Permutation_sym; exact HQ1p|]. apply in_or_app. right. exact Hx. }
+  assert (E1E : forall x, In x E1 -> In x E).
+  { intros x Hx. eapply Permutation_in; [apply Permutation_sym; exact HEp|]. apply in_or_app. right. exact Hx. }
+  assert (FE : forall x, In x F -> In x E).
+  { intros x Hx. eapply Permutation_in; [apply Permutation_sym; exact HEp|]. apply in_or_app. left. exact Hx. }
+  assert (Q1Q : forall x, In x Q1 -> In x Q).
+  { intros x Hx. eapply Permutation_in; [apply Permutation_sym; exact HQp|]. apply in_or_app. right. exact Hx. }
+  assert (HndFE1 : NoDup (F ++ E1)) by (eapply Permutation_NoDup; eassumption).
+  assert (HndE2Le : NoDup (E2 ++ Le)) by (eapply Permutation_NoDup; eassumption).
+  assert (Hinj := PMf_NoDup_map _ _ _ HPM HQ).
+  constructor; simpl.
+  - (* E *)
+    eapply Permutation_trans; [exact HEp|]. rewrite <- !app_assoc. apply Permutation_app_head.
+    eapply Permutation_trans; [exact HE1p|].
+    eapply Permutation_trans; [apply Permutation_app_tail; exact rE|]. rewrite <- !app_assoc. apply Permutation_refl.
+  - (* Q *)
+    eapply Permutation_trans; [exact HQp|]. rewrite <- !app_assoc. apply Permutation_app_head.
+    eapply Permutation_trans; [exact HQ1p|].
+    eapply Permutation_trans; [apply Permutation_app_tail; exact rQ|]. rewrite <- !app_assoc. apply Permutation_refl.
+  - rewrite map_app. congruence.
+  - rewrite map_app. congruence.
+  - (* TriS (F ++ ef') *)
+    apply TriS_app. split; [|split; [exact rtf|]].
+    + apply TriS_offdiag; [eapply NoDup_app_l; exact HndFE1|].
+      intros e e' He He' Hne. apply Hoff; [exact He | eapply PMf_in; [exact HPM | apply FE; exact He'] |].
+      intros Eq. apply Hne. symmetry. eapply NoDup_map_inj_in; eauto.
+    + intros e e' He He'. assert (He'1 : In e' E1) by (apply E2E1, inE2; tauto).
+      apply Hoff; [exact He | eapply PMf_in; [exact HPM | apply E1E; exact He'1] |].
+      intros Eq. assert (e = e') by (eapply NoDup_map_inj_in; eauto). subst e'.
+      eapply NoDup_app_disj; [exact HndFE1 | exact He | exact He'1].
+  - (* TriS (el' ++ Le) *)
+    apply TriS_app. split; [exact rtl|split].
+    + apply TriS_offdiag; [exact HLe|]. intros e e' He He' Hne. apply Hcol; [exact He' | apply LeE1; exact He | exact Hne].
+    + intros e e' He He'. assert (He2 : In e E2) by (apply inE2; tauto).
+      apply Hcol; [exact He' | apply E2E1; exact He2 |].
+      intros Eq. subst e'. eapply NoDup_app_disj; [exact HndE2Le | exact He2 | exact He'].
+  - (* zero (F ++ ef') (qi ++ ql' ++ Lq) *)
+    apply zero_app_l. split.
+    + eapply zero_incl; [exact HzF | apply incl_refl |]. intros q Hq.
+      rewrite !in_app_iff in Hq. destruct Hq as [Hq|[Hq|Hq]]; [apply Q2Q1, inQ2; tauto | apply Q2Q1, inQ2; tauto | apply LqQ1; exact Hq].
+    + rewrite app_assoc. apply zero_app_r. split; [exact rzf|].
+      eapply zero_incl; [exact HzL | | apply incl_refl]. intros e He. apply inE2. tauto.
+  - (* zero ei (ql' ++ Lq) *)
+    apply zero_app_r. split; [exact rzi|].
+    eapply zero_incl; [exact HzL | | apply incl_refl]. intros e He. apply inE2. tauto.
+  - exact rpm.
+  - exact rndE.
+  - exact rndQ.
+Qed.
+
+Lemma prefetch_unfold : forall fuel E Q,
+  prefetch inc fuel E Q =
+  let '(ef, qf, e1, q1) := prefetch_first inc E Q in
+  let '(el, ql, e2, q2) := prefetch_last inc e1 q1 in
+  let stop := mkPre ef qf el ql e2 q2 in
+  if msize e2 q2 <? msize E Q then
+    match fuel with
+    | 0 => stop
+    | S f => let r := prefetch inc f e2 q2 in
+             mkPre (ef ++ p_ef r) (qf ++ p_qf r) (p_el r ++ el) (p_ql r ++ ql) (p_ei r) (p_qi r)
+    end
+  else stop.
+Proof. destruct fuel; reflexivity. Qed.
+
+Lemma prefetch_spec : forall s fuel E Q,
+  NoDup E -> NoDup Q -> PMf s E Q -> PreSpec s E Q (prefetch inc fuel E Q).
+Proof.
+  intros s fuel. induction fuel as [|f IH]; intros E Q HE HQ HPM; rewrite prefetch_unfold;
+    destruct (prefetch_first inc E Q) as [[[F QF] E1] Q1] eqn:H1;
+    destruct (prefetch_last inc E1 Q1) as [[[Le Lq] E2] Q2] eqn:H2; cbv beta iota zeta;
+    destruct (prefetch_first_spec _ _ _ _ _ _ _ HE HQ HPM H1) as [_ [_ [_ [_ [_ [HPM1 [HE1 HQ1]]]]]]];
+    destruct (prefetch_last_spec _ _ _ _ _ _ _ HE1 HQ1 HPM1 H2) as [_ [_ [_ [_ [_ [HPM2 [HE2 [HQ2 _]]]]]]]];
+    assert (Hstop : PreSpec s E Q (mkPre F QF Le Lq E2 Q2))
+      by (generalize (prefetch_level s E Q F QF E1 Q1 Le Lq E2 Q2 _ HE HQ HPM H1 H2 (PreSpec_stop s E2 Q2 HE2 HQ2 HPM2));
+          simpl; rewrite !app_nil_r; auto).
+  - destruct (msize E2 Q2 <? msize E Q); exact Hstop.
+  - destruct (msize E2 Q2 <? msize E Q); [|exact Hstop].
+    apply (prefetch_level s E Q F QF E1 Q1 Le Lq E2 Q2 _ HE HQ HPM H1 H2). apply IH; assumption.
+Qed.
+
+(* the fuel given by the callers (the size of the matrix) is enough: more fuel changes nothing *)
+Lemma prefetch_fuel_irrelevant : forall f1 f2 E Q,
+  msize E Q <= f1 -> msize E Q <= f2 -> prefetch inc f1 E Q = prefetch inc f2 E Q.
+Proof.
+  induction f1 as [|f1 IH]; intros f2 E Q H1 H2; rewrite (prefetch_unfold f2), prefetch_unfold;
+    destruct (prefetch_first inc E Q) as [[[F QF] E1] Q1];
+    destruct (prefetch_last inc E1 Q1) as [[[Le Lq] E2] Q2]; cbv beta iota zeta.
+  - destruct (msize E2 Q2 <? msize E Q) eqn:Hlt; [|reflexivity].
+    apply Nat.ltb_lt in Hlt. lia.
+  - destruct (msize E2 Q2 <? msize E Q) eqn:Hlt; [|reflexivity].
+    apply Nat.ltb_lt in Hlt. destruct f2 as [|f2]; [lia|].
+    rewrite (IH f2 E2 Q2) by lia. reflexivity.
+Qed.
+
+(* ---------------------------------------------------------------- triangularize_inner_block *)
+
+Variable oracle : oracle_t.
+Definition perm_oracle (o : oracle_t) : Prop := forall k v, Permutation (o k v) (seq 0 (length v)).
+Hypothesis oracle_perm : perm_oracle oracle.
+
+Lemma flip_if_perm : forall b p l, Permutation p l -> Permutation (flip_if b p) l.
+Proof.
+  intros b p l H. destruct b; simpl; [|exact H].
+  eapply Permutation_trans; [apply Permutation_sym; apply Permutation_rev | exact H].
+Qed.
+
+Lemma triang_unfold : forall fuel cnt es qs,
+  triang inc oracle fuel cnt es qs =
+  match fuel with
+  | 0 => (es, qs, cnt)
+  | S f =>
+      let pc := flip_if column_reordering_flips (oracle (2 * cnt) (map (colsum inc es) qs)) in
+      let qs' := permute 0 pc qs in
+      let pr := flip_if row_reordering_flips (oracle (2 * cnt + 1) (map (rowsum inc qs') es)) in
+      let es' := permute 0 pr es in
+      if nat_list_eqb es es' && nat_list_eqb qs qs' then (es', qs', S cnt)
+      else triang inc oracle f (S cnt) es' qs'
+  end.
+Proof. destruct fuel; reflexivity. Qed.
+
+Lemma triang_perm : forall fuel cnt es qs es' qs' it,
+  triang inc oracle fuel cnt es qs = (es', qs', it) -> Permutation es' es /\ Permutation qs' qs.
+Proof.
+  induction fuel as [|f IH]; intros cnt es qs es' qs' it H; rewrite triang_unfold in H.
+  - injection H as <- <- _. split; apply Permutation_refl.
+  - cbv zeta in H.
+    set (pc := flip_if column_reordering_flips (oracle (2 * cnt) (map (colsum inc es) qs))) in *.
+    set (qs1 := permute 0 pc qs) in *.
+    set (pr := flip_if row_reordering_flips (oracle (2 * cnt + 1) (map (rowsum inc qs1) es))) in *.
+    set (es1 := permute 0 pr es) in *.
+    assert (Hq : Permutation qs1 qs).
+    { apply permute_perm. apply flip_if_perm. rewrite <- (map_length (colsum inc es) qs). apply oracle_perm. }
+    assert (He : Permutation es1 es).
+    { apply permute_perm. apply flip_if_perm. rewrite <- (map_length (rowsum inc qs1) es). apply oracle_perm. }
+    destruct (nat_list_eqb es es1 && nat_list_eqb qs qs1).
+    + injection H as <- <- _. split; assumption.
+    + apply IH in H. destruct H as [H1 H2]. split; eapply Permutation_trans; eassumption.
+Qed.
+
+(* ---------------------------------------------------------------- _generate_inner_blocks *)
+
+Lemma find_cut_spec : forall k i es qs b,
+  find_cut inc k i es qs = Some b -> i <= b < i + k /\ corner_zero inc b es qs = true.
+Proof.
+  induction k as [|k IH]; intros i es qs b H; simpl in H; [discriminate|].
+  destruct (corner_zero inc i es qs) eqn:Hc.
+  - injection H as <-. split; [lia | exact Hc].
+  - apply IH in H. destruct H as [H1 H2]. split; [lia | exact H2].
+Qed.
+
+Lemma find_cut_complete : forall k i es qs j,
+  i <= j < i + k -> corner_zero inc j es qs = true -> find_cut inc k i es qs <> None.
+Proof.
+  induction k as [|k IH]; intros i es qs j Hj Hc; simpl; [lia|].
+  destruct (corner_zero inc i es qs) eqn:Hci; [discriminate|].
+  apply (IH (S i) es qs j); [|exact Hc].
+  assert (i <> j) by (intros E; subst; congruence). lia.
+Qed.
+
+Lemma corner_zero_zero : forall b es qs, corner_zero inc b es qs = true -> zero (firstn b es) (skipn b qs).
+Proof.
+  intros b es qs H e q He Hq. unfold corner_zero in H. rewrite forallb_forall in H.
+  specialize (H e He). rewrite forallb_forall in H. specialize (H q Hq). apply negb_true_iff in H. exact H.
+Qed.
+
+Lemma corner_zero_full : forall es qs, length qs <= length es -> corner_zero inc (length es) es qs = true.
+Proof.
+  intros es qs H. unfold corner_zero. rewrite (skipn_all2 qs) by exact H.
+  apply forallb_forall. intros e _. reflexivity.
+Qed.
+
+Lemma gen_blocks_unfold : forall fuel es qs,
+  gen_blocks inc fuel es qs =
+  if msize es qs =? 0 then Some []
+  else match fuel with
+       | 0 => None
+       | S f =>
+           match find_cut inc (length es + 1 - first_block_size_candidate) first_block_size_candidate es qs with
+           | None => None
+           | Some bs =>
+               match gen_blocks inc f (skipn bs es) (skipn bs qs) with
+               | None => None
+               | Some r => Some ((firstn bs es, firstn bs qs) :: r)
+               end
+           end
+       end.
+Proof. destruct fuel; reflexivity. Qed.
+
+Lemma gen_blocks_spec : forall fuel es qs,
+  length es = length qs -> length es <= fuel ->
+  exists bs, gen_blocks inc fuel es qs = Some bs /\ beids bs = es /\ bqids bs = qs /\ Forall square bs /\ Tri bs.
+Proof.
+  induction fuel as [|f IH]; intros es qs Hlen Hfuel; rewrite gen_blocks_unfold; unfold msize.
+  - assert (es = []) by (destruct es; [reflexivity | simpl in Hfuel; lia]). subst es.
+    destruct qs; [|discriminate]. simpl. exists []. repeat split; constructor.
+  - destruct (length es * length qs =? 0) eqn:Hz.
+    + apply Nat.eqb_eq in Hz. assert (length es = 0) by nia.
+      destruct es; [|discriminate]. destruct qs; [|discriminate].
+      exists []. repeat split; constructor.
+    + apply Nat.eqb_neq in Hz. assert (Hpos : 1 <= length es) by nia.
+      change first_block_size_candidate with 1.
+      destruct (find_cut inc (length es + 1 - 1) 1 es qs) as [b|] eqn:Hcut.
+      * apply find_cut_spec in Hcut. destruct Hcut as [Hb Hc].
+        destruct (IH (skipn b es) (skipn b qs)) as [r [Hr [He [Hq [Hsq Htri]]]]].
+        { rewrite !skipn_length. lia. }
+        { rewrite skipn_length. lia. }
+        rewrite Hr. exists ((firstn b es, firstn b qs) :: r). split; [reflexivity|].
+        split; [|split; [|split]].
+        -- unfold beids in *. simpl. rewrite He. apply firstn_skipn.
+        -- unfold bqids in *. simpl. rewrite Hq. apply firstn_skipn.
+        -- constructor; [|exact Hsq]. unfold square. simpl. rewrite !firstn_length. lia.
+        -- simpl. split; [|exact Htri]. rewrite Hq. apply corner_zero_zero. exact Hc.
+      * exfalso. apply (find_cut_complete (length es + 1 - 1) 1 es qs (length es)) in Hcut; [exact Hcut | lia |].
+        apply corner_zero_full. lia.
+Qed.
+
+(* ---------------------------------------------------------------- blaze (on positions) *)
+
+Lemma blaze_core_spec : forall s E Q,
+  NoDup E -> NoDup Q -> PMf s E Q ->
+  exists bs pre calls,
+    blaze_core inc oracle E Q = Some (bs, pre, calls) /\
+    Permutation (beids bs) E /\ Permutation (bqids bs) Q /\ Forall square bs /\ Tri bs.
+Proof.
+  intros s E Q HE HQ HPM. unfold blaze_core.
+  pose proof (prefetch_spec s (msize E Q) E Q HE HQ HPM) as Hs.
+  set (pre := prefetch inc (msize E Q) E Q) in *.
+  destruct Hs as [rE rQ rqf rql rtf rtl rzf rzi rpm rndE rndQ].
+  assert (Hinner : exists ei qi it,
+     (if msize (p_ei pre) (p_qi pre) =? 0 then (p_ei pre, p_qi pre, 0)
+      else triang inc oracle max_iterations 0 (p_ei pre) (p_qi pre)) = (ei, qi, it)
+     /\ Permutation ei (p_ei pre) /\ Permutation qi (p_qi pre)).
+  { destruct (msize (p_ei pre) (p_qi pre) =? 0).
+    - exists (p_ei pre), (p_qi pre), 0. split; [reflexivity | split; apply Permutation_refl].
+    - destruct (triang inc oracle max_iterations 0 (p_ei pre) (p_qi pre)) as [[ei qi] it] eqn:Ht.
+      exists ei, qi, it. split; [reflexivity|]. eapply triang_perm. exact Ht. }
+  destruct Hinner as [ei [qi [it [Hin [Hpe Hpq]]]]]. rewrite Hin.
+  assert (Hlen : length ei = length qi).
+  { rewrite (Permutation_length Hpe), (Permutation_length Hpq). eapply PMf_length. exact rpm. }
+  destruct (gen_blocks_spec (length ei) ei qi Hlen (le_n _)) as [inner [Hg [Hbe [Hbq [Hsq Htri]]]]].
+  rewrite Hg. eexists. eexists. eexists. split; [reflexivity|].
+  rewrite rqf, rql.
+  split; [|split; [|split]].
+  - rewrite !beids_app, !beids_singles, Hbe.
+    eapply Permutation_trans; [|apply Permutation_sym; exact rE].
+    apply Permutation_app_head. apply Permutation_app_tail. exact Hpe.
+  - rewrite !bqids_app, !bqids_singles, Hbq.
+    eapply Permutation_trans; [|apply Permutation_sym; exact rQ]. rewrite rqf, rql.
+    apply Permutation_app_head. apply Permutation_app_tail. exact Hpq.
+  - apply Forall_app. split; [apply square_singles | apply Forall_app; split; [exact Hsq | apply square_singles]].
+  - apply Tri_app. split; [apply Tri_singles; exact rtf|]. split.
+    + apply Tri_app. split; [exact Htri|]. split; [apply Tri_singles; exact rtl|].
+      rewrite Hbe, bqids_singles, <- rql.
+      eapply zero_incl; [exact rzi | | apply incl_refl]. intros e He. eapply Permutation_in; eassumption.
+    + rewrite beids_singles, bqids_app, Hbq, bqids_singles, <- rql.
+      eapply zero_incl; [exact rzf | apply incl_refl |]. intros q Hq.
+      apply in_app_or in Hq. apply in_or_app. destruct Hq as [Hq|Hq]; [left; eapply Permutation_in; eassumption | right; exact Hq].
+Qed.
+
+(* ---------------------------------------------------------------- consequences of triangularity *)
+
+(* positive form: an equation of block b involves only quantities of b and of earlier blocks *)
+Lemma Tri_positive : forall bs Q, Permutation (bqids bs) Q -> Tri bs ->
+  forall pre b post, bs = pre ++ b :: post ->
+  forall e q, In e (fst b) -> In q Q -> inc e q = true -> In q (bqids (pre ++ [b])).
+Proof.
+  intros bs Q HQ Htri pre b post Hbs e q He Hq Hinc. subst bs.
+  apply Tri_app in Htri. destruct Htri as [_ [Htri _]]. simpl in Htri. destruct Htri as [Hz _].
+  apply Permutation_sym in HQ. apply (Permutation_in _ HQ) in Hq.
+  rewrite bqids_app in Hq. change (bqids (b :: post)) with (snd b ++ bqids post) in Hq.
+  rewrite bqids_app. change (bqids [b]) with (snd b ++ []). rewrite app_nil_r.
+  rewrite !in_app_iff in Hq. rewrite in_app_iff. destruct Hq as [Hq|[Hq|Hq]]; [tauto | tauto |].
+  rewrite (Hz e q He Hq) in Hinc. discriminate.
+Qed.
+
+(* structural non-singularity: a perfect matching of the whole matrix restricts to a perfect
+   matching of every diagonal block *)
+Lemma blocks_matched : forall s bs,
+  NoDup (bqids bs) -> Permutation (map s (beids bs)) (bqids bs) ->
+  (forall e, In e (beids bs) -> inc e (s e) = true) ->
+  Forall square bs -> Tri bs ->
+  Forall (fun b => PMf s (fst b) (snd b)) bs.
+Proof.
+  intros s bs. induction bs as [|b r IH]; intros Hnd Hperm Hinc Hsq Htri; [constructor|].
+  change (beids (b :: r)) with (fst b ++ beids r) in *.
+  change (bqids (b :: r)) with (snd b ++ bqids r) in *.
+  simpl in Htri. destruct Htri as [Hz Htri]. inversion Hsq as [|? ? Hsqb Hsqr]; subst.
+  rewrite map_app in Hperm.
+  assert (Hsub : incl (map s (fst b)) (snd b)).
+  { intros q Hq. apply in_map_iff in Hq. destruct Hq as [e [Eq He]]. subst q.
+    assert (Hin : In (s e) (snd b ++ bqids r)).
+    { eapply Permutation_in; [exact Hperm|]. apply in_or_app. left. apply in_map. exact He. }
+    apply in_app_or in Hin. destruct Hin as [Hin|Hin]; [exact Hin|].
+    assert (Hi : inc e (s e) = true) by (apply Hinc; apply in_or_app; left; exact He).
+    rewrite (Hz e (s e) He Hin) in Hi. discriminate. }
+  assert (Hnd1 : NoDup (map s (fst b))).
+  { eapply NoDup_app_l. eapply Permutation_NoDup; [apply Permutation_sym; exact Hperm | exact Hnd]. }
+  assert (Hpb : Permutation (map s (fst b)) (snd b)).
+  { apply NoDup_Permutation_bis; [exact Hnd1 | rewrite map_length; unfold square in Hsqb; lia | exact Hsub]. }
+  constructor.
+  - split; [exact Hpb|]. intros e He. apply Hinc. apply in_or_app. left. exact He.
+  - apply IH; [eapply NoDup_app_r; exact Hnd | | | exact Hsqr | exact Htri].
+    + apply (Permutation_app_inv_l (snd b)).
+      eapply Permutation_trans; [apply Permutation_app_tail; apply Permutation_sym; exact Hpb | exact Hperm].
+    + intros e He. apply Hinc. apply in_or_app. right. exact He.
+Qed.
+
+(* ---------------------------------------------------------------- the diagonal case (Sequential models):
+   the same ids label rows and columns and every row is incident to its own column *)
+
+Definition diag (E : list nat) : Prop := forall e, In e E -> inc e e = true.
+
+Lemma PMf_id : forall E, diag E -> PMf (fun x => x) E E.
+Proof. intros E H. split; [rewrite map_id; apply Permutation_refl | exact H]. Qed.
+
+Lemma prefetch_first_diag : forall E F QF E1 Q1, NoDup E -> diag E ->
+  prefetch_first inc E E = (F, QF, E1, Q1) -> QF = F /\ Q1 = E1.
+Proof.
+  intros E F QF E1 Q1 HE Hd H.
+  destruct (prefetch_first_spec _ _ _ _ _ _ _ HE HE (PMf_id E Hd) H) as [HQF _].
+  rewrite map_id in HQF. split; [exact HQF|].
+  unfold prefetch_first in H. injection H as HF HQF' HE1 HQ1.
+  rewrite <- HQ1, <- HE1. rewrite HQF', HQF. apply filter_ext_in. intros q Hq. f_equal.
+  rewrite <- HF. destruct (rowsum inc E q =? singleton_row_count) eqn:Es.
+  - apply mem_In. apply filter_In. tauto.
+  - apply mem_false. rewrite filter_In. intros [_ C]. congruence.
+Qed.
+
+Lemma prefetch_last_diag : forall E Le Lq E2 Q2, NoDup E -> diag E ->
+  prefetch_last inc E E = (Le, Lq, E2, Q2) -> Lq = Le /\ Q2 = E2.
+Proof.
+  intros E Le Lq E2 Q2 HE Hd H.
+  destruct (prefetch_last_spec _ _ _ _ _ _ _ HE HE (PMf_id E Hd) H) as [HLq _].
+  rewrite map_id in HLq. split; [exact HLq|].
+  unfold prefetch_last in H. injection H as HLe HLq' HE2 HQ2.
+  rewrite <- HQ2, <- HE2. rewrite HLe, <- HLq. apply filter_ext_in. intros e He. f_equal.
+  rewrite <- HLq'. destruct (colsum inc E e =? singleton_column_count) eqn:Es.
+  - symmetry. apply mem_In. apply filter_In. tauto.
+  - symmetry. apply mem_false. rewrite filter_In. intros [_ C]. congruence.
+Qed.
+
+Lemma diag_incl : forall E E', diag E -> incl E' E -> diag E'.
+Proof. unfold diag, incl. auto. Qed.
+
+(* one level of prefetch on a diagonal matrix: everything stays diagonal *)
+Lemma prefetch_level_diag : forall E F QF E1 Q1 Le Lq E2 Q2, NoDup E -> diag E ->
+  prefetch_first inc E E = (F, QF, E1, Q1) -> prefetch_last inc E1 Q1 = (Le, Lq, E2, Q2) ->
+  QF = F /\ Q1 = E1 /\ Lq = Le /\ Q2 = E2 /\ NoDup E2 /\ diag E2 /\ incl E2 E /\ Permutation E (F ++ E2 ++ Le).
+Proof.
+  intros E F QF E1 Q1 Le Lq E2 Q2 HE Hd H1 H2.
+  destruct (prefetch_first_diag _ _ _ _ _ HE Hd H1) as [-> ->].
+  destruct (prefetch_first_spec _ _ _ _ _ _ _ HE HE (PMf_id E Hd) H1) as [_ [HEp [_ [_ [_ [HPM1 [HE1 _]]]]]]].
+  assert (HinclE1 : incl E1 E).
+  { intros x Hx. eapply Permutation_in; [apply Permutation_sym; exact HEp|]. apply in_or_app. right. exact Hx. }
+  assert (Hd1 : diag E1) by exact (diag_incl E E1 Hd HinclE1).
+  destruct (prefetch_last_diag _ _ _ _ _ HE1 Hd1 H2) as [-> ->].
+  destruct (prefetch_last_spec _ _ _ _ _ _ _ HE1 HE1 (PMf_id E1 Hd1) H2) as [_ [HE1p [_ [_ [_ [_ [HE2 _]]]]]]].
+  assert (HinclE2 : incl E2 E).
+  { intros x Hx. apply HinclE1. eapply Permutation_in; [apply Permutation_sym; exact HE1p|]. apply in_or_app. left. exact Hx. }
+  repeat split; auto.
+  - exact (diag_incl E E2 Hd HinclE2).
+  - eapply Permutation_trans; [exact HEp|]. apply Permutation_app_head. exact HE1p.
+Qed.
+
+Lemma prefetch_diag : forall fuel E, NoDup E -> diag E -> p_qi (prefetch inc fuel E E) = p_ei (prefetch inc fuel E E).
+Proof.
+  induction fuel as [|f IH]; intros E HE Hd; rewrite prefetch_unfold;
+    destruct (prefetch_first inc E E) as [[[F QF] E1] Q1] eqn:H1;
+    destruct (prefetch_last inc E1 Q1) as [[[Le Lq] E2] Q2] eqn:H2; cbv beta iota zeta;
+    destruct (prefetch_level_diag _ _ _ _ _ _ _ _ _ HE Hd H1 H2) as [-> [-> [-> [-> [HE2 [Hd2 _]]]]]].
+  - destruct (msize E2 E2 <? msize E E); reflexivity.
+  - destruct (msize E2 E2 <? msize E E); [|reflexivity]. simpl. apply IH; assumption.
+Qed.
+
+(* causality of the order eids_first + eids_last whenever it covers all equations *)
+Lemma strict_order_causal : forall fuel E, NoDup E -> diag E ->
+  let r := prefetch inc fuel E E in
+  Permutation (p_ef r ++ p_el r) E -> TriS (fun x => x) (p_ef r ++ p_el r).
+Proof.
+  intros fuel E HE Hd r Hp.
+  destruct (prefetch_spec (fun x => x) fuel E E HE HE (PMf_id E Hd)) as [rE rQ rqf rql rtf rtl rzf rzi rpm rndE rndQ].
+  fold r in rE, rQ, rqf, rql, rtf, rtl, rzf, rzi, rpm, rndE, rndQ.
+  apply TriS_app. split; [exact rtf|]. split; [exact rtl|].
+  intros e e' He He'. apply rzf; [exact He|]. apply in_or_app. right. rewrite rql, map_id. exact He'.
+Qed.
+
+Lemma TriS_filter : forall s f l, TriS s l -> TriS s (filter f l).
+Proof.
+  intros s f l. induction l as [|x l IH]; simpl; intros H; [exact I|].
+  destruct H as [H1 H2]. destruct (f x); simpl.
+  - split; [|apply IH; exact H2]. intros e' He'. apply H1. apply filter_In in He'. tauto.
+  - apply IH. exact H2.
+Qed.
+
+(* completeness: when a causal order exists the peeling consumes every equation *)
+Lemma prefetch_complete : forall fuel E, NoDup E -> diag E -> msize E E <= fuel ->
+  (exists ord, Permutation ord E /\ TriS (fun x => x) ord) ->
+  p_ei (prefetch inc fuel E E) = [].
+Proof.
+  induction fuel as [|f IH]; intros E HE Hd Hfuel [ord [Hperm Hord]]; rewrite prefetch_unfold;
+    destruct (prefetch_first inc E E) as [[[F QF] E1] Q1] eqn:H1;
+    destruct (prefetch_last inc E1 Q1) as [[[Le Lq] E2] Q2] eqn:H2; cbv beta iota zeta;
+    destruct (prefetch_level_diag _ _ _ _ _ _ _ _ _ HE Hd H1 H2) as [EQF [EQ1 [ELq [EQ2 [HE2 [Hd2 [Hincl HEp]]]]]]];
+    subst QF Q1 Lq Q2.
+  - (* no fuel: the matrix is empty *)
+    unfold msize in Hfuel. assert (length E = 0) by nia. destruct E; [|discriminate].
+    assert (E2 = []) by (destruct E2 as [|x ?]; [reflexivity | exfalso; apply (Hincl x); left; reflexivity]).
+    subst E2. destruct (msize [] [] <? msize [] []); reflexivity.
+  - destruct ord as [|e0 rest].
+    + (* E is empty *)
+      apply Permutation_nil in Hperm. subst E.
+      assert (E2 = []) by (destruct E2 as [|x ?]; [reflexivity | exfalso; apply (Hincl x); left; reflexivity]).
+      subst E2. destruct (msize [] [] <? msize [] []); [|reflexivity]. simpl.
+      apply IH; [constructor | intros ? [] | unfold msize; simpl; lia |].
+      exists []. split; [constructor | exact I].
+    + (* the first equation of the causal order is a singleton row *)
+      assert (He0 : In e0 E) by (eapply Permutation_in; [exact Hperm | left; reflexivity]).
+      assert (Hrow : rowsum inc E e0 = 1).
+      { unfold rowsum. rewrite <- (count_perm (inc e0) _ _ Hperm). unfold count. simpl.
+        rewrite (Hd e0 He0). simpl. f_equal.
+        rewrite filter_all_false; [reflexivity|]. intros x Hx. apply (proj1 Hord). exact Hx. }
+      assert (HF : In e0 F).
+      { unfold prefetch_first in H1. injection H1 as HF _ _ _. rewrite <- HF. apply filter_In. split; [exact He0|].
+        rewrite Hrow. reflexivity. }
+      assert (Hlt : length E2 < length E).
+      { apply Permutation_length in HEp. rewrite !app_length in HEp.
+        destruct F; [destruct HF | simpl in HEp; lia]. }
+      assert (Hm : msize E2 E2 < msize E E) by (unfold msize; nia).
+      apply Nat.ltb_lt in Hm. rewrite Hm. simpl.
+      apply IH; [exact HE2 | exact Hd2 | apply Nat.ltb_lt in Hm; lia |].
+      exists (filter (fun x => mem x E2) (e0 :: rest)). split.
+      * eapply Permutation_trans; [apply Permutation_filter_; exact Hperm|].
+        apply NoDup_Permutation; [apply NoDup_filter_; exact HE | exact HE2 |].
+        intros x. rewrite filter_In, mem_In. split; [tauto | intros Hx; split; [apply Hincl; exact Hx | exact Hx]].
+      * apply TriS_filter. exact Hord.
+Qed.
+
+End CoreProofs.
